@@ -177,10 +177,16 @@ def set_char_len(desc: str, char_len: str) -> str:
     'CHARACTER*10'
     >>> set_char_len("CHARACTER(len=3)", "*2")
     'CHARACTER*2'
+    >>> set_char_len("CHARACTER*12", "*(5)")
+    'CHARACTER*(5)'
     >>> set_char_len("CHARACTER(len=3, kind=1)", "*(*)")
     'CHARACTER(len=*, kind=1)'
     """
+    i_star = desc.find("*")
     i_paren = desc.find("(")
+    if i_star >= 0 and (i_paren < 0 or i_star < i_paren):
+        # CHARACTER*len
+        return desc[:i_star].rstrip() + char_len
     if i_paren < 0:
         return desc + char_len
     selector = desc[i_paren + 1 : desc.rfind(")")]
